@@ -78,3 +78,79 @@ Proof.
     destruct (first_drift (trace (update a x1) xs1)); [discriminate | reflexivity].
 Qed.
 End TwoStreams.
+
+(** ---- loosening only the warning threshold, two related input streams (1 = looser warning) ---- *)
+Section TwoStreamsWarn.
+Variables (E0 X1 X2 : Type) (reset0 : E0 -> E0) (pol : recs_policy).
+Variable step1 : E0 -> Z -> X1 -> E0 * option dstate.
+Variable step2 : E0 -> Z -> X2 -> E0 * option dstate.
+Variable xrel : X1 -> X2 -> Prop.
+Variable erel : E0 -> E0 -> Prop.
+Notation W1 := (L1 E0 X1 reset0 pol step1).
+Notation W2 := (L2 E0 X2 reset0 pol step2).
+
+Hypothesis reset_rel : forall e1 e2, erel e1 e2 -> erel (reset0 e1) (reset0 e2).
+Hypothesis same_state : forall e1 e2 n x1 x2, erel e1 e2 -> xrel x1 x2 ->
+  erel (fst (step1 e1 n x1)) (fst (step2 e2 n x2)).
+Hypothesis same_drift : forall e1 e2 n x1 x2, erel e1 e2 -> xrel x1 x2 ->
+  (snd (step1 e1 n x1) = Some DDrift <-> snd (step2 e2 n x2) = Some DDrift).
+Hypothesis same_decided : forall e1 e2 n x1 x2, erel e1 e2 -> xrel x1 x2 ->
+  (snd (step1 e1 n x1) = None <-> snd (step2 e2 n x2) = None).
+Hypothesis warn_kept : forall e1 e2 n x1 x2, erel e1 e2 -> xrel x1 x2 ->
+  snd (step2 e2 n x2) = Some DWarn -> snd (step1 e1 n x1) = Some DWarn.
+
+Definition wrel2 (a : st W1) (b : st W2) : Prop :=
+  erel (epoch a) (epoch b) /\ total a = total b /\ since a = since b /\
+  (ds a = DDrift <-> ds b = DDrift) /\ (ds b = DWarn -> ds a = DWarn).
+
+Lemma update_wrel2 a b x1 x2 : wrel2 a b -> xrel x1 x2 -> wrel2 (update a x1) (update b x2).
+Proof.
+  intros (He & Ht & Hs & Hd & Hw) Hx.
+  assert (Hpre : erel (epoch (pre W1 a)) (epoch (pre W2 b)) /\ total (pre W1 a) = total (pre W2 b) /\
+                 since (pre W1 a) = since (pre W2 b) /\
+                 (ds (pre W2 b) = DWarn -> ds (pre W1 a) = DWarn)).
+  { unfold pre.
+    destruct (ds a) eqn:Ea; destruct (ds b) eqn:Eb;
+      try (exfalso; destruct Hd as [H1 H2]; first [discriminate (H1 eq_refl) | discriminate (H2 eq_refl)]);
+      try (exfalso; discriminate (Hw eq_refl));
+      simpl; rewrite ?Ea, ?Eb; repeat split; try assumption; try discriminate; try reflexivity;
+      try (apply reset_rel; assumption); try (intros; congruence). }
+  destruct Hpre as (He' & Ht' & Hs' & Hw').
+  rewrite (update_eq W1 a x1), (update_eq W2 b x2). cbv zeta. unfold wrel2. simpl.
+  rewrite Ht', Hs'.
+  pose proof (same_state (epoch (pre W1 a)) (epoch (pre W2 b)) (since (pre W2 b) + 1) x1 x2 He' Hx) as SS.
+  pose proof (same_drift (epoch (pre W1 a)) (epoch (pre W2 b)) (since (pre W2 b) + 1) x1 x2 He' Hx) as SD.
+  pose proof (same_decided (epoch (pre W1 a)) (epoch (pre W2 b)) (since (pre W2 b) + 1) x1 x2 He' Hx) as SN.
+  pose proof (warn_kept (epoch (pre W1 a)) (epoch (pre W2 b)) (since (pre W2 b) + 1) x1 x2 He' Hx) as WK.
+  destruct (snd (step1 (epoch (pre W1 a)) (since (pre W2 b) + 1) x1)) as [d1|] eqn:E1;
+  destruct (snd (step2 (epoch (pre W2 b)) (since (pre W2 b) + 1) x2)) as [d2|] eqn:E2;
+    (split; [exact SS|]); repeat split; try reflexivity; intros.
+  - subst. destruct SD as [SD _]. specialize (SD eq_refl). congruence.
+  - subst. destruct SD as [_ SD]. specialize (SD eq_refl). congruence.
+  - subst. specialize (WK eq_refl). congruence.
+  - destruct SN as [_ SN]. specialize (SN eq_refl). discriminate.
+  - destruct SN as [_ SN]. specialize (SN eq_refl). discriminate.
+  - destruct SN as [_ SN]. specialize (SN eq_refl). discriminate.
+  - destruct SN as [SN _]. specialize (SN eq_refl). discriminate.
+  - destruct SN as [SN _]. specialize (SN eq_refl). discriminate.
+  - destruct SN as [SN _]. specialize (SN eq_refl). discriminate.
+  - unfold pre in *. destruct (is_drift (ds a)) eqn:Ea; simpl in *; [discriminate|].
+    destruct (ds a); simpl in *; congruence.
+  - unfold pre in *. destruct (is_drift (ds b)) eqn:Eb; simpl in *; [discriminate|].
+    destruct (ds b); simpl in *; congruence.
+  - apply Hw'. assumption.
+Qed.
+
+(** drifts in exactly the same places over the whole run, every warning of the stricter warning setting
+    is a warning of the looser one, counters identical *)
+Theorem warning_loosening2 : forall xs1 xs2 a b, Forall2 xrel xs1 xs2 -> wrel2 a b ->
+  Forall2 (fun o1 o2 => (o_ds o1 = DDrift <-> o_ds o2 = DDrift) /\ (o_ds o2 = DWarn -> o_ds o1 = DWarn)
+                         /\ o_total o1 = o_total o2 /\ o_since o1 = o_since o2)
+          (trace a xs1) (trace b xs2).
+Proof.
+  intros xs1 xs2 a b HF. revert a b.
+  induction HF as [|x1 x2 xs1 xs2 Hx _ IH]; intros a b H; simpl; [constructor|].
+  pose proof (update_wrel2 a b x1 x2 H Hx) as H'. constructor; [|apply IH; exact H'].
+  destruct H' as (_ & Ht & Hs & Hd & Hw). unfold observe; simpl. repeat split; try assumption; apply Hd.
+Qed.
+End TwoStreamsWarn.
